@@ -103,6 +103,8 @@ func setupArena(c Case) (r, src string, vars map[string]string, cleanup func(), 
 		return
 	}
 	extra := fsx.Tree{
+		{Path: "ext/f", Kind: "file", Content: "OUT:ext-f", Mode: 0644, Sec: 1400000000},
+		{Path: "h/ext/f", Kind: "file", Content: "OUT:other-ext-f", Mode: 0644, Sec: 1400000000},
 		{Path: "other", Kind: "dir", Mode: 0755},
 		{Path: "other/src", Kind: "dir", Mode: 0755}, // a different directory that a cwd-relative reading could pick up
 		{Path: "other/src/DECOY", Kind: "file", Content: "OUT:decoy", Mode: 0644},
@@ -218,7 +220,9 @@ var historyOps = []string{"pack-dot-elsewhere", "pack-dot-elsewhere", "pack-nega
 
 func runHistoryOp(op, r string, i int, p *slug.Packer) {
 	defer func() { recover() }()
-	dir := filepath.Join(r, fmt.Sprintf("hist%d", i))
+	// one level deeper than the tree under test, so that a relative allow-list
+	// entry means a different directory here
+	dir := filepath.Join(r, "h", fmt.Sprintf("hist%d", i))
 	switch op {
 	case "pack-negation-first":
 		fsx.Materialise(dir, fsx.Tree{{Path: ".terraformignore", Kind: "file", Content: "!keep.txt\n*.txt\n!/sub/\n"},
@@ -247,7 +251,7 @@ func runHistoryOp(op, r string, i int, p *slug.Packer) {
 		devnull.Close()
 	case "pack-other-tree-links":
 		fsx.Materialise(dir, fsx.Tree{{Path: "a", Kind: "file", Content: "k"}, {Path: "l", Kind: "symlink", Target: "a"},
-			{Path: "d/up", Kind: "symlink", Target: "../a"}}, nil)
+			{Path: "d/up", Kind: "symlink", Target: "../a"}, {Path: "out", Kind: "symlink", Target: "../ext/f"}}, nil)
 		p.Pack(dir, &bytes.Buffer{})
 	case "unpack":
 		data, _ := tarx.Build([]tarx.Entry{{Name: "f", Type: "file", Mode: 0644, Body: "x"}, {Name: "l", Type: "symlink", Link: "f"}}, nil)
@@ -400,6 +404,18 @@ func genCase(t *rapid.T) Case {
 	c := Case{Tree: tgen.Gen(t, tgen.Config{MaxNodes: 12, Links: true, IgnoreNames: true, Special: true})}
 	c.Opts.Deref = rapid.Bool().Draw(t, "deref")
 	c.Opts.Ignore = rapid.Bool().Draw(t, "ignore")
+	if rapid.IntRange(0, 3).Draw(t, "allow?") == 0 {
+		c.Opts.Allow = []string{rapid.SampledFrom([]string{"../ext", "../ext/f", "{R}/ext"}).Draw(t, "allow")}
+		has := false
+		for _, n := range c.Tree {
+			if n.Path == "to-ext" {
+				has = true
+			}
+		}
+		if !has {
+			c.Tree = append(c.Tree, fsx.Node{Path: "to-ext", Kind: "symlink", Target: "../ext/f"})
+		}
+	}
 	if rapid.IntRange(0, 2).Draw(t, "rulesfile") > 0 {
 		var paths []string
 		for _, n := range c.Tree {
